@@ -25,7 +25,7 @@ FAMILY_CODE = {
 
 def mk_conf(local_as=65000, peer_as=65001, families=('ipv4 unicast',), asn4=True, addpath=None, addpath_families=(),
             extended_message=False, nexthop=False, hold=180, router_id='1.2.3.4', local='127.0.0.1', peer='127.0.0.2',
-            routes=(), extra='', adj_rib_in=False, route_refresh=False, api='', aigp=False, graceful_restart=None):
+            routes=(), extra='', adj_rib_in=False, route_refresh=False, api='', aigp=False, graceful_restart=None, multisession=False):
     cap = ['asn4 %s;' % ('enable' if asn4 else 'disable')]
     if addpath:
         cap.append('add-path %s;' % addpath)
@@ -41,6 +41,8 @@ def mk_conf(local_as=65000, peer_as=65001, families=('ipv4 unicast',), asn4=True
         cap.append('aigp enable;')
     if graceful_restart is not None:
         cap.append('graceful-restart %d;' % graceful_restart)
+    if multisession:
+        cap.append('multi-session enable;')
     fam = ''.join('        %s;\n' % f for f in families)
     ap = ''
     if addpath_families:
